@@ -24,10 +24,10 @@ CONFIG = {
                 "the turn manager part is Model/Turn.v at binary64 (property C02)"],
     "assumptions": ["content uses the engine API legally: qualified attacks and EndAttack only from action / ult / insert bodies"],
     "manifest": {
-        "level_text": "Kernel-checked theorems about the model, for all configs, scripts and decision sequences: the action started for an alive character is the decided type or the default attack when the skill's cost is not available (with the decision and the fallback recorded), a skill needs its cost, the primary target is what the decided rule selects (First = head of the living candidates of the right side; LowestHP / LowestHPRatio = a minimal candidate given non-NaN HP values; a named unit only if alive and of the right class), skill points stay in [0,5], an ultimate is queued only for a character the script asked for whose energy is full and queuing zeroes the energy. The same clauses are evaluated as a trace monitor on every real run, with decisions recorded by a wrapper around logic.Eval.",
+        "level_text": "Kernel-checked theorems about the model, for all configs, scripts and decision sequences. Run level: the trace of every run that ends (result or error return) is accepted by the decision monitor `decision_ok` that is evaluated on every real trace: after the script's answer the content call of that character is a skill exactly when a skill was decided and the engine did not fall back, the fallback to the default attack only follows a decided skill of the same character, and the primary target of an action or ultimate belongs to the class the ability's target type asks for and has not been announced dead (invariants: unit records keep the static fields of their description, the living lists hold only units of their side that were not announced; found on the way: a named target must still be on the field, model repaired to match the code). Per function: the action started for an alive character is the decided type or the default attack when the skill's cost is not available, a skill needs its cost, the primary target is what the decided rule selects (First = head of the living candidates of the right side; LowestHP / LowestHPRatio = the FIRST candidate with the smallest key: every candidate before it has a strictly larger key, none after it a smaller one, given non-NaN HP values; a named unit only if alive, on the field and of the right class), skill points stay in [0,5], an ultimate is queued only for a character the script asked for whose energy is full and queuing zeroes the energy. Not stated at run level: the skill-point and ultimate clauses (they are not part of the trace monitor).",
         "level_note": "Coq kernel; hand-written model Model/Sim.v tied by whole-trace correspondence; content is scripted harness "
                       "content registered through the exported Register functions; internal/* content is not modelled.",
-        "technique": 'Coq proofs (decision / target-rule / SP / ult lemmas) + whole-trace correspondence + decision monitor',
+        "technique": 'Coq proofs over whole runs (frame principle over all content scripts, C08 dead-set invariant reused, relation composed over queue, turns and start) + decision / target-rule / SP / ult lemmas + whole-trace correspondence + decision monitor',
         "design_ref": "DESIGN.md section 7, C11",
     },
 }
